@@ -121,12 +121,28 @@ fn check_scene(sc: &Scene, su: &Setup, rng: &mut Rng, st: &mut Stats) -> Option<
     // the documented pixel -> model map
     let cfg = RenderConfig { image_size: ImageSize::new(su.w, su.h), world_to_model: su.mat, pixel_perfect: su.pixel_perfect, z: su.z };
     let m3 = cfg.mat();
+    // (bit-exact sample positions come from the renderer's own matrix: it
+    // must be the documented map)
+    {
+        let rows = |a: &nalgebra::Matrix3<f32>| (0..3).map(|r| (0..3).map(|c| a[(r, c)] as f64).collect::<Vec<_>>()).collect::<Vec<_>>();
+        if let Some(msg) = check_documented_mat(&[su.w, su.h], &rows(&su.mat), &rows(&m3)) {
+            return Some(("sample_position:screen_to_model_matrix".into(), msg, setup_json));
+        }
+    }
     let m4: Matrix4<f32> = {
         let t = m3.insert_row(2, 0.0);
         let mut t = t.insert_column(2, 0.0);
         t[(2, 2)] = 1.0;
         t
     };
+    // scale of the model space seen through this view (see C07)
+    let model_scale = {
+        let s = (0..2).map(|c| su.mat[(0, c)].abs()).fold(0f32, f32::max) / su.mat[(2, 2)].abs();
+        if s > 64.0 || s < 1.0 / 64.0 { (2.0f32).powi(s.log2().round() as i32) } else { 1.0 }
+    };
+    if model_scale != 1.0 {
+        st.inc("renders_at_extreme_scale");
+    }
     let n_px = (su.w * su.h) as usize;
     let budget = 700usize;
     let mut fill_depths = std::collections::BTreeSet::new();
@@ -181,7 +197,7 @@ fn check_scene(sc: &Scene, su: &Setup, rng: &mut Rng, st: &mut Stats) -> Option<
                 }
             }
         } else {
-            let band = 1e-5 * p.x.abs().max(p.y.abs()).max(p.z.abs()).max(1.0);
+            let band = 1e-5 * (p.x.abs().max(p.y.abs()).max(p.z.abs()) / model_scale).max(1.0);
             if v_ref.is_nan() || v_ref.abs() <= band {
                 st.inc("pixels_in_zero_band_or_nan");
                 continue;
@@ -201,7 +217,7 @@ fn check_scene(sc: &Scene, su: &Setup, rng: &mut Rng, st: &mut Stats) -> Option<
     None
 }
 
-fn check_prog(p: &Prog, model: Option<usize>, seed: u64, tier: Tier, st: &mut Stats, pressure: bool) -> Option<(String, String, Value)> {
+fn check_prog(p: &Prog, model: Option<usize>, seed: u64, tier: Tier, st: &mut Stats, pressure: bool, view_scale: f32) -> Option<(String, String, Value)> {
     let mut rng = Rng::new(seed);
     let rng = &mut rng;
     let built;
@@ -229,8 +245,18 @@ fn check_prog(p: &Prog, model: Option<usize>, seed: u64, tier: Tier, st: &mut St
         w,
         h,
         tiles,
-        mat: random_mat3(rng),
-        z: if rng.chance(0.5) { 0.0 } else { rng.uniform(-0.5, 0.5) as f32 },
+        mat: {
+            // (a scene rescaled by `view_scale` is looked at through a view
+            // scaled to match)
+            let mut m = random_mat3(rng);
+            for r in 0..2 {
+                for c in 0..3 {
+                    m[(r, c)] *= view_scale;
+                }
+            }
+            m
+        },
+        z: if rng.chance(0.5) { 0.0 } else { rng.uniform(-0.5, 0.5) as f32 * view_scale },
         pixel_perfect: rng.chance(0.35),
         jit: rng.chance(if pressure { 0.6 } else { 0.5 }),
         small_vm: rng.chance(if pressure { 0.7 } else { 0.15 }),
@@ -344,20 +370,30 @@ impl Prop for C06 {
             st.inc("scenes_bundled_model");
             (Prog { nodes: vec![], n_vars: 3, outputs: vec![] }, Some(rng.below(n_models)))
         };
+        // now and then the whole scene lives at a very different scale:
+        // rescaled by a power of two, view (and slice height) to match
+        let mut view_scale = 1.0f32;
+        let mut p = p;
+        if model.is_none() && rng.chance(0.06) {
+            let e = rng.range(8, 24) as i32 * if rng.chance(0.5) { 1 } else { -1 };
+            view_scale = (2.0f32).powi(e);
+            p = shape::rescale(&p, view_scale);
+            st.inc("scenes_at_extreme_scale");
+        }
         st.distinct(if let Some(m) = model { m as u64 ^ rng.next_u64() } else { p.hash() });
         st.sample(|| if let Some(m) = model { json!({"model": models()[m].name}) } else { json!({"program": p.to_json()}) });
         let seed = rng.next_u64();
-        if let Some((sig, msg, detail)) = check_prog(&p, model, seed, tier, st, wide_live) {
+        if let Some((sig, msg, detail)) = check_prog(&p, model, seed, tier, st, wide_live, view_scale) {
             let mut pj = if let Some(m) = model { json!({"model": models()[m].name}) } else { p.to_json() };
             if model.is_none() {
                 let mut scratch = Stats::default();
                 let sig0 = sig.clone();
                 let small = crate::gen_::shrink::shrink(
                     &p,
-                    &mut |q: &Prog| matches!(guarded(|| check_prog(q, None, seed, tier, &mut scratch, wide_live)), Ok(Some((s, _, _))) if s == sig0),
+                    &mut |q: &Prog| matches!(guarded(|| check_prog(q, None, seed, tier, &mut scratch, wide_live, view_scale)), Ok(Some((s, _, _))) if s == sig0),
                     150,
                 );
-                if let Some((s2, m2, d2)) = check_prog(&small, None, seed, tier, &mut scratch, wide_live) {
+                if let Some((s2, m2, d2)) = check_prog(&small, None, seed, tier, &mut scratch, wide_live, view_scale) {
                     if s2 == sig {
                         pj = small.to_json();
                         st.violation(case, s2, m2, json!({"detail": d2, "shape": pj, "check_seed": seed.to_string()}));
